@@ -57,6 +57,33 @@ contract(FC + "::CellCycleController.release_resource", "C15",
          ensures={})
 
 
+# ---------------------------------------------------------------- the DFS of detect_cycle: stack discipline (the nested closure is the target)
+# What is proved: a search that reports nothing leaves `path` and `rec_stack` exactly as it found them (so a later search cannot see stale
+# "on the stack" nodes and report a cycle that does not exist), `visited` only grows, and the recursion keeps rec_stack within visited.
+# NOT proved (bounded stand-in): completeness of the search and that a reported list is a cycle of the wait-for relation.
+shape("DependencyGraphD", edges="dict:str,list:tuple:str;str")
+DFS_CLOS = {"self": "obj:DependencyGraphD", "visited": "set:str", "rec_stack": "set:str", "path": "list:str"}
+DFS_LOOP = "for (blocking, resource) in self.edges[node]"
+contract(FT + "::DependencyGraph.detect_cycle.dfs", "C15", ghost_params={"gx": "str", "gi": "int"},
+         options={"closure": DFS_CLOS}, returns="opt:list:str", modifies=["visited", "rec_stack", "path"],
+         ghost_instances=[{"gi": "len(path) - 1"}],       # the caller needs the restored path at its own top of stack
+         raises=["ValueError"],     # path.index(blocking): that every node on the recursion stack is on the path is not carried (assumption)
+         requires=["node not in visited", "implies(gx in rec_stack, gx in visited)"],
+         loops={DFS_LOOP: {"invariant": [
+             "len(path) == len(old(path)) + 1 and path[len(path) - 1] == node",
+             "implies(0 <= gi and gi < len(old(path)), path[gi] == old(path)[gi])",
+             "(gx in rec_stack) == (gx in old(rec_stack) or gx == node)",
+             "implies(gx in old(visited), gx in visited)",
+             "implies(gx in rec_stack, gx in visited)"]}},
+         ensures={
+             "unsuccessful-search-restores-the-path": "implies(result is None, len(path) == len(old(path)) and "
+                                                      "implies(0 <= gi and gi < len(path), path[gi] == old(path)[gi]))",
+             "unsuccessful-search-restores-the-stack": "implies(result is None, (gx in rec_stack) == (gx in old(rec_stack)))",
+             "visited-only-grows": "implies(gx in old(visited), gx in visited)",
+             "stack-stays-within-visited": "implies(result is None, implies(gx in rec_stack, gx in visited))",
+         })
+
+
 def native_replay(rep):
     import os, sys
     sys.path.insert(0, os.path.dirname(os.path.dirname(os.path.abspath(__file__))))
